@@ -370,6 +370,10 @@ def simulated_anneal_tree(
         if progbar:
             pbar.update()
 
+    # invalidate any compiled contractions and the explicit index orders,
+    # which ancestors of the rearranged nodes also depend on
+    tree.reset_contraction_indices()
+
     return tree
 
 
